@@ -49,7 +49,8 @@ Definition route_of (p : wpkt) : route :=
     if (w_cmd p =? c_CMD_HEARTBEAT) && (match w_ty p with PTRequest => true | _ => false end) then RPing
     else if (w_cmd p =? c_CMD_HEARTBEAT) && (match w_ty p with PTResponse => true | _ => false end) then RPong
     else if w_cmd p =? c_CMD_CLOSE then RClose
-    else if (w_cmd p =? c_CMD_AUTH) || (w_cmd p =? c_CMD_RECONNECT) then RToWaiter
+    else if (w_cmd p =? c_CMD_AUTH) || (w_cmd p =? c_CMD_RECONNECT) then
+      match w_ty p with PTResponse => RToWaiter | _ => RIgnored end      (* only a response answers auth / reconnect *)
     else RIgnored                                            (* heartbeat push: falls through handleControl *)
   else match w_ty p with
        | PTPush => RPush
